@@ -3,7 +3,7 @@
 of /repo's CURRENT working tree with its sync / sync/atomic imports rewritten to the cooperative
 shims, plus the shim packages mapped as virtual directories of the elrond-vm-common module."""
 import json, os, re, sys, glob
-REPO='/repo'; VERIF=os.path.dirname(os.path.dirname(os.path.abspath(__file__))); TAG=(sys.argv[1] if len(sys.argv)>1 else ''); WORK=os.path.join(VERIF,'.work','ov'+TAG)
+REPO=os.environ.get('VERIF_REPO') or '/repo'; VERIF=os.path.dirname(os.path.dirname(os.path.abspath(__file__))); TAG=(sys.argv[1] if len(sys.argv)>1 else ''); WORK=os.path.join(VERIF,'.work','ov'+TAG)
 os.makedirs(WORK, exist_ok=True)
 MOD='github.com/ElrondNetwork/elrond-vm-common'
 rep={}
